@@ -107,6 +107,11 @@ def add_header_to_file(
 
     with open(path, "r", encoding="utf-8", newline="") as fp:
         text = fp.read()
+    # A byte order mark is not part of the text. Keep it as the very first
+    # character of the file.
+    bom = ""
+    if text.startswith("\ufeff"):
+        bom, text = text[0], text[1:]
 
     # Ideally, this check is done elsewhere. But that would necessitate reading
     # the file contents before this function is called.
@@ -163,7 +168,7 @@ def add_header_to_file(
         result = 1
     else:
         with open(path, "w", encoding="utf-8", newline=line_ending) as fp:
-            fp.write(output)
+            fp.write(bom + output)
         # TODO: This may need to be rephrased more elegantly.
         out.write(_("Successfully changed header of {path}").format(path=path))
         out.write("\n")
